@@ -63,8 +63,8 @@ class NfdRegister(PrefixRegisterer):
                                                       enc.Name.to_str(name), ret["status_code"], ret["status_text"])
                     return True
             except (types.InterestNack, types.InterestTimeout, types.InterestCanceled, types.ValidationFailure,
-                    enc.DecodeError, ValueError, IndexError, struct.error) as e:
-                # The last four: the reply is not a decodable ControlResponse
+                    enc.DecodeError, ValueError, IndexError, TypeError, struct.error) as e:
+                # The last five: the reply is not a decodable ControlResponse (TypeError: it has no Content)
                 logging.getLogger(__name__).error(
                     f'Registration for {enc.Name.to_str(name)} failed: {e.__class__.__name__}')
                 return False
@@ -86,5 +86,5 @@ class NfdRegister(PrefixRegisterer):
                 ret = nfd_mgmt.parse_response(reply)
                 return ret['status_code'] == 200
             except (types.InterestNack, types.InterestTimeout, types.InterestCanceled, types.ValidationFailure,
-                    enc.DecodeError, ValueError, IndexError, struct.error):
+                    enc.DecodeError, ValueError, IndexError, TypeError, struct.error):
                 return False
